@@ -1,4 +1,5 @@
 import MpVerif.C03.ModelSpec
+import MpVerif.C03.ModelIntText
 import Std.Data.HashMap
 /-! Line driver for C03.  Input: the model / run lines printed by harness/h_nlw2.cc (without the "M " prefix).
     For every `run` line it prints `== <case> <run args> wf=<bool>` followed by the canonical lines of
@@ -224,6 +225,11 @@ partial def loop (st : IO.Ref (Std.HashMap String Nat)) (h : IO.FS.Stream) (out 
   match toks with
   | "run" :: args =>
     if b.bad then out.putStrLn "bad-op" else doRun st b args out
+    loop st h out b
+  | ["gint", v] =>
+    match v.toInt? with
+    | some i => out.putStrLn s!"#gint {v} {(gfmtInt i).render}"
+    | none => out.putStrLn "#gint bad-op"
     loop st h out b
   | [] => loop st h out b
   | _ =>
